@@ -109,3 +109,15 @@ void h_hue_suspend_again(void) { REG_STATE(); HUE *e = malloc(sizeof(HUE)); __CP
 void h_aw_subscribe(void) { REG_STATE(); AWT *n = malloc(sizeof(AWT)); __CPROVER_assume(n != 0); gh_my_node = n; gh_node_own = OWN_ME; gh_push_handle = n->_handle_addr; gh_push_fn = (void *)n->_resume_fn;
   aw_subscribe(n, (ATOMAW *)&blk->obj._chain); SENT(gh_push_seen == 0, "first listener of the chain"); SENT(gh_push_seen != 0, "pushed on top of other listeners"); }
 #endif
+#ifdef CV_HAS_sig_ctor
+void h_sig_ctor(void) { gh_sg_blk = 0; gh_S_slot = 0; SIG *s; sig_ctor(s); SENT(1, "after signal()"); }
+#endif
+#ifdef CV_HAS_coll_to_signal
+void h_coll_to_signal(void) { REG_STATE(); MK_COLL(c); SIG *r; coll_to_signal(r, c); SENT(1, "after collector::operator signal()"); }
+#endif
+#ifdef CV_HAS_hue_ctor
+void h_hue_ctor(void) { HUE *e; REGT *fn; hue_ctor(e, fn); SENT(1, "after hook_up_emitter(fn)"); }
+#endif
+#ifdef CV_HAS_hook_up
+void h_hook_up(void) { HUE *e; REGT *fn; hook_up(e, fn); SENT(1, "after hook_up(fn)"); }
+#endif
